@@ -9,7 +9,13 @@ package main
 // local with the recorded type and ordinal is bound instead.
 
 import (
+	"bytes"
+	"crypto/sha256"
 	"encoding/json"
+	"fmt"
+	"go/printer"
+	"go/token"
+	"strconv"
 	"go/ast"
 	"go/types"
 	"os"
@@ -140,3 +146,167 @@ func bindLocals(lockKey string, c *FuncContract, body ast.Node, info *types.Info
 	}
 	return rebind
 }
+
+// ---- loop ordinals that survive an added loop ----
+//
+// Invariants, hints, decreases clauses and `ghost at loop[k]` hooks are keyed by the ordinal of the loop in
+// source order. A harmless edit that adds a loop in front of the others (a counting loop for a log line) would
+// shift the ordinals and attach every invariant to the wrong loop. The lock file therefore also records, per
+// function under contract, a signature of each loop (what it ranges over, or its condition). When the current
+// source has a different number of loops than the lock, the recorded loops are matched to the current ones by
+// signature, in order; if every recorded loop that the contract says something about finds its match, the
+// matched loops keep their recorded ordinals and the new ones get ordinals no clause names (they are then
+// treated as loops without invariant: everything they assign is havocked). Otherwise nothing is re-bound and
+// the contract fails or detaches as before.
+
+func loopSig(n ast.Node) string {
+	switch x := n.(type) {
+	case *ast.RangeStmt:
+		return "range " + types.ExprString(x.X)
+	case *ast.ForStmt:
+		if x.Cond == nil {
+			return "for"
+		}
+		return "for " + types.ExprString(x.Cond)
+	}
+	return "?"
+}
+
+// loopBodyHash: a digest of the printed loop statement (so that, among loops with the same signature, the one
+// whose body is unchanged is recognised)
+func loopBodyHash(n ast.Node) string {
+	var buf bytes.Buffer
+	printer.Fprint(&buf, token.NewFileSet(), n)
+	return fmt.Sprintf("%x", sha256.Sum256(buf.Bytes()))[:10]
+}
+
+func rebindLoops(lockKey string, c *FuncContract, loopOrd map[ast.Node]int) (note string) {
+	named := map[int]bool{} // ordinals the contract says something about
+	for _, k := range c.Clauses {
+		switch k.Kind {
+		case "invariant", "decreases", "hint":
+			named[k.Idx] = true
+		case "ghost":
+			var o int
+			if n, _ := fmtSscanf(k.Where, &o); n == 1 {
+				named[o] = true
+			}
+		}
+	}
+	return rebindOrdinals(lockKey+"#loops", "loop", loopOrd, loopSig, named)
+}
+
+// rebindLits: the same for function literals (closure[k] contracts): an added literal in front of the others
+// (a deferred logging closure) must not shift the contracts onto the wrong literals.
+func rebindLits(lockKey string, c *FuncContract, litOrd map[*ast.FuncLit]int) (note string) {
+	named := map[int]bool{}
+	for k := range c.Closures {
+		named[k] = true
+	}
+	tmp := map[ast.Node]int{}
+	for l, o := range litOrd {
+		tmp[l] = o
+	}
+	note = rebindOrdinals(lockKey+"#lits", "literal", tmp, func(n ast.Node) string {
+		return "func" + types.ExprString(n.(*ast.FuncLit).Type)
+	}, named)
+	if note != "" {
+		for l := range litOrd {
+			litOrd[l] = tmp[l]
+		}
+	}
+	return note
+}
+
+func rebindOrdinals(key, what string, ordOf map[ast.Node]int, sigOf func(ast.Node) string, named map[int]bool) (note string) {
+	type cl struct {
+		n    ast.Node
+		ord  int
+		sig  string
+		hash string
+	}
+	var cur []cl
+	for n, o := range ordOf {
+		cur = append(cur, cl{n, o, sigOf(n), loopBodyHash(n)})
+	}
+	sort.Slice(cur, func(i, j int) bool { return cur[i].ord < cur[j].ord })
+	if os.Getenv("GOVC_WRITE_LOCK") != "" {
+		var rec []lockLocal
+		for _, l := range cur {
+			rec = append(rec, lockLocal{Name: l.sig, Type: what + ":" + l.hash, Ord: l.ord})
+		}
+		if len(rec) > 0 {
+			lockNew[key] = rec
+		}
+	}
+	old := lockData[key]
+	if len(old) == 0 || len(old) == len(cur) {
+		return ""
+	}
+	// order-preserving matching of the recorded items to the current ones with the highest score:
+	// 3 for the same signature and the same body, 1 for the same signature only
+	n, m := len(old), len(cur)
+	score := func(i, j int) int {
+		if old[i].Name != cur[j].sig {
+			return 0
+		}
+		if old[i].Type == what+":"+cur[j].hash {
+			return 3
+		}
+		return 1
+	}
+	best := make([][]int, n+1)
+	for i := range best {
+		best[i] = make([]int, m+1)
+	}
+	for i := n - 1; i >= 0; i-- {
+		for j := m - 1; j >= 0; j-- {
+			b := best[i+1][j]
+			if best[i][j+1] > b {
+				b = best[i][j+1]
+			}
+			if sc := score(i, j); sc > 0 && best[i+1][j+1]+sc > b {
+				b = best[i+1][j+1] + sc
+			}
+			best[i][j] = b
+		}
+	}
+	assign := map[ast.Node]int{}
+	matched := map[int]bool{}
+	for i, j := 0, 0; i < n && j < m; {
+		sc := score(i, j)
+		switch {
+		case sc > 0 && best[i][j] == best[i+1][j+1]+sc:
+			assign[cur[j].n] = old[i].Ord
+			matched[i] = true
+			i++
+			j++
+		case best[i][j] == best[i+1][j]:
+			i++
+		default:
+			j++
+		}
+	}
+	for i, o := range old {
+		if !matched[i] && named[o.Ord] {
+			return "" // an item the contract talks about is gone: leave everything as it is
+		}
+	}
+	extra := 0
+	for _, l := range cur {
+		if _, ok := assign[l.n]; !ok {
+			extra++
+			assign[l.n] = 1000 + extra
+		}
+	}
+	for n, o := range assign {
+		ordOf[n] = o
+	}
+	return what + " ordinals re-bound by signature (the function has " + itoa(len(cur)) + " " + what + "s, its contract was written for " + itoa(len(old)) + "; contracts.lock.json)"
+}
+
+func fmtSscanf(where string, o *int) (int, error) {
+	return fmt.Sscanf(where, "loop[%d]", o)
+}
+
+func itoa(n int) string { return strconv.Itoa(n) }
